@@ -80,6 +80,9 @@ class Helper:
         self.params = [x.arg for x in a.posonlyargs + a.args]
         self.defaults = dict(zip(reversed(self.params), reversed(a.defaults)))
         self.static = cls is not None and len(node.decorator_list) == 1 and isinstance(node.decorator_list[0], ast.Name) and node.decorator_list[0].id == 'staticmethod'
+        # a classmethod reached through an instance: `cls` stands for type(instance); as long as the body uses cls only to reach other methods/class attributes
+        # (never calls cls(..) or compares it), the instance itself serves
+        self.classmethod = cls is not None and len(node.decorator_list) == 1 and isinstance(node.decorator_list[0], ast.Name) and node.decorator_list[0].id == 'classmethod'
         self.is_method = cls is not None
         body = list(node.body)
         if body and isinstance(body[0], ast.Expr) and isinstance(body[0].value, ast.Constant) and isinstance(body[0].value.value, str):
@@ -95,8 +98,17 @@ class Helper:
     def eligible(self):
         n = self.node
         a = n.args
-        if (n.decorator_list and not self.static) or isinstance(n, ast.AsyncFunctionDef) or a.kwonlyargs:
+        if (n.decorator_list and not (self.static or self.classmethod)) or isinstance(n, ast.AsyncFunctionDef) or a.kwonlyargs:
             return False
+        if self.classmethod:
+            c0 = self.params[0] if self.params else None
+            for x in _shallow(n):
+                if isinstance(x, ast.Name) and x.id == c0:
+                    pass
+            uses = [x for x in _shallow(n) if isinstance(x, ast.Name) and x.id == c0]
+            as_recv = {id(x.value) for x in _shallow(n) if isinstance(x, ast.Attribute) and isinstance(x.value, ast.Name) and x.value.id == c0}
+            if any(id(u) not in as_recv for u in uses):
+                return False
         if a.vararg or a.kwarg:
             # *args / **kwargs that the helper only passes on (`f(*args, **kwargs)`) can be bound to the caller's own starred arguments
             star = {x.arg for x in (a.vararg, a.kwarg) if x is not None}
@@ -1637,12 +1649,27 @@ def strip_fresh_write_only_state(modules, baseline_attrs=None, baseline_funcs=No
     for o in observers:
         obs_nodes.update(id(x) for x in ast.walk(o))
 
+    # new module-level containers / counters (`_statistics = {...}` next to the code) are state of the same kind: `'@' + name` stands for them below
+    bconsts = baseline_constants()
+    modnames = set()
+    for m in modules.values():
+        for st in m.tree.body:
+            if isinstance(st, ast.Assign) and len(st.targets) == 1 and isinstance(st.targets[0], ast.Name) and '%s.%s' % (m.name, st.targets[0].id) not in bconsts:
+                v = st.value
+                if isinstance(v, (ast.Dict, ast.List, ast.Set)) or (isinstance(v, ast.Call) and isinstance(v.func, ast.Name) and v.func.id in ('dict', 'list', 'set', 'Counter', 'defaultdict', 'OrderedDict')) \
+                        or (isinstance(v, ast.Constant) and isinstance(v.value, int) and not isinstance(v.value, bool)):
+                    modnames.add(st.targets[0].id)
+
     def target_attr(t):
-        """the attribute a store target writes (X.A, X.A[k], X.A[k][j]) or None"""
+        """the attribute a store target writes (X.A, X.A[k], X.A[k][j]), '@name' for a subscript store into a new module-level container, or None"""
         while isinstance(t, ast.Subscript):
             t = t.value
             if isinstance(t, ast.Attribute):
                 return t.attr
+            if isinstance(t, ast.Name) and t.id in modnames:
+                return '@' + t.id
+        if isinstance(t, ast.Name) and t.id in modnames:
+            return '@' + t.id
         return t.attr if isinstance(t, ast.Attribute) else None
     MUT = {'append', 'extend', 'insert', 'update', 'setdefault', 'add', 'appendleft'}
     cand = set()
@@ -1651,7 +1678,7 @@ def strip_fresh_write_only_state(modules, baseline_attrs=None, baseline_funcs=No
             if isinstance(n, (ast.Assign, ast.AugAssign)):
                 for t in (n.targets if isinstance(n, ast.Assign) else [n.target]):
                     a = target_attr(t)
-                    if a and a not in battrs:
+                    if a and a not in battrs and not (a.startswith('@') and isinstance(t, ast.Name) and not any(isinstance(g_, ast.Global) for g_ in ast.walk(m.tree))):
                         cand.add(a)
     if not cand:
         return []
@@ -1685,6 +1712,8 @@ def strip_fresh_write_only_state(modules, baseline_attrs=None, baseline_funcs=No
             for n in ast.walk(m.tree):
                 if isinstance(n, ast.Attribute) and n.attr in dead and isinstance(n.ctx, ast.Load) and id(n) not in harmless:
                     bad.add(n.attr)
+                elif isinstance(n, ast.Name) and ('@' + n.id) in dead and isinstance(n.ctx, ast.Load) and id(n) not in harmless:
+                    bad.add('@' + n.id)
                 elif isinstance(n, ast.Call) and isinstance(n.func, ast.Name) and n.func.id in ('getattr', 'hasattr', 'vars') and id(n) not in harmless:
                     if len(n.args) >= 2 and isinstance(n.args[1], ast.Constant) and n.args[1].value in dead:
                         bad.add(n.args[1].value)
@@ -1735,6 +1764,45 @@ def _const_value(e):
                               ast.In, ast.NotIn, ast.Tuple, ast.Load, ast.USub)):
             raise ValueError
     return eval(compile(ast.fix_missing_locations(ast.Expression(body=copy.deepcopy(e))), '<const>', 'eval'), {'__builtins__': {}})
+
+
+_RECV_CACHE = {}
+
+
+def _receiver_class(modules, call):
+    """the class a call `self.<attr>.<m>(..)` / `<x>.<attr>.<m>(..)` is made on, when <attr> is only ever assigned `ClassName(..)` (or a singleton factory of it) in the
+    package and that class defines <m>; None when unknown"""
+    key = id(modules)
+    if key not in _RECV_CACHE:
+        classes = {c.name: c for m_ in modules.values() for c in ast.walk(m_.tree) if isinstance(c, ast.ClassDef)}
+        factories = {}
+        for m_ in modules.values():
+            for st in m_.tree.body:
+                if isinstance(st, ast.Assign) and isinstance(st.value, ast.Call) and isinstance(st.value.func, ast.Name) and st.value.args and isinstance(st.value.args[0], ast.Name) \
+                        and st.value.args[0].id in classes:
+                    for t in st.targets:
+                        if isinstance(t, ast.Name):
+                            factories[t.id] = st.value.args[0].id
+        attrs = {}
+        for m_ in modules.values():
+            for n in ast.walk(m_.tree):
+                if isinstance(n, ast.Assign) and isinstance(n.value, ast.Call) and isinstance(n.value.func, ast.Name):
+                    cn = n.value.func.id
+                    cn = cn if cn in classes else factories.get(cn)
+                    for t in n.targets:
+                        if isinstance(t, ast.Attribute):
+                            attrs.setdefault(t.attr, set()).add(cn)
+        _RECV_CACHE.clear()
+        _RECV_CACHE[key] = (classes, attrs)
+    classes, attrs = _RECV_CACHE[key]
+    f = call.func
+    if isinstance(f, ast.Attribute) and isinstance(f.value, ast.Attribute):
+        cands = attrs.get(f.value.attr, set())
+        if len(cands) == 1 and None not in cands:
+            cn = next(iter(cands))
+            if any(isinstance(s2, ast.FunctionDef) and s2.name == f.attr for s2 in classes[cn].body):
+                return cn
+    return None
 
 
 def specialise_fresh_optional_params(modules, bparams=None):
@@ -1824,6 +1892,8 @@ def specialise_fresh_optional_params(modules, bparams=None):
                     continue
                 supplied = False
                 for c in calls.get(fn.name, []):
+                    if is_method and _receiver_class(modules, c) not in (None, q.split('.')[-2]):
+                        continue        # a call on an attribute known to hold an object of another class that has its own method of this name
                     if any(k.arg == pname or k.arg is None for k in c.keywords) or any(isinstance(x, ast.Starred) for x in c.args):
                         supplied = True
                     elif kind == 'pos' and len(c.args) >= (i if is_method and isinstance(c.func, ast.Attribute) else i + 1):
@@ -1845,6 +1915,108 @@ def specialise_fresh_optional_params(modules, bparams=None):
                 notes.append((q, [], 'new optional parameter %s (no call in the package supplies it) analysed at its default %s' % (pname, ast.unparse(default))))
         ast.fix_missing_locations(m.tree)
     return notes
+
+
+# ----------------------------------------------------------------------------------------------- getattr/setattr with a literal name
+
+def canonical_getattr(modules):
+    """getattr(x, 'name') -> x.name and setattr(x, 'name', v) -> x.name = v when the name is a literal identifier (two-argument getattr only: a default changes the
+    meaning).  After a loop over literal attribute names has been unrolled this gives the attribute accesses the loop stood for."""
+    n = 0
+
+    class T(ast.NodeTransformer):
+        def visit_Call(self, c):
+            nonlocal n
+            self.generic_visit(c)
+            if isinstance(c.func, ast.Name) and c.func.id == 'getattr' and len(c.args) == 2 and not c.keywords and isinstance(c.args[1], ast.Constant) \
+                    and isinstance(c.args[1].value, str) and c.args[1].value.isidentifier() and not c.args[1].value.startswith('__'):
+                n += 1
+                return ast.copy_location(ast.Attribute(value=c.args[0], attr=c.args[1].value, ctx=ast.Load()), c)
+            return c
+
+        def visit_Expr(self, st):
+            nonlocal n
+            self.generic_visit(st)
+            c = st.value
+            if isinstance(c, ast.Call) and isinstance(c.func, ast.Name) and c.func.id == 'setattr' and len(c.args) == 3 and not c.keywords and isinstance(c.args[1], ast.Constant) \
+                    and isinstance(c.args[1].value, str) and c.args[1].value.isidentifier() and not c.args[1].value.startswith('__'):
+                n += 1
+                return ast.copy_location(ast.Assign(targets=[ast.Attribute(value=c.args[0], attr=c.args[1].value, ctx=ast.Store())], value=c.args[2]), st)
+            return st
+    for m in modules.values():
+        m.tree = ast.fix_missing_locations(T().visit(m.tree))
+    return [('<package>', [], '%d getattr/setattr calls with a literal name written as attribute accesses' % n)] if n else []
+
+
+# ----------------------------------------------------------------------------------------------- while True: if c: break
+
+def canonical_loop_guards(modules):
+    """`while True: if C: break; BODY` (no else on either) is `while not C: BODY`: the test is evaluated at the same moments (on entry and after every pass, also
+    after a `continue`).  Rules about "the loop guard" then see the guard wherever it was written."""
+    n = 0
+
+    class T(ast.NodeTransformer):
+        def visit_While(self, w):
+            nonlocal n
+            self.generic_visit(w)
+            if isinstance(w.test, ast.Constant) and w.test.value in (True, 1) and not w.orelse and len(w.body) >= 2:
+                first = w.body[0]
+                if isinstance(first, ast.If) and not first.orelse and len(first.body) == 1 and isinstance(first.body[0], ast.Break):
+                    c = first.test
+                    neg = c.operand if isinstance(c, ast.UnaryOp) and isinstance(c.op, ast.Not) else ast.UnaryOp(op=ast.Not(), operand=c)
+                    n += 1
+                    return ast.copy_location(ast.While(test=neg, body=w.body[1:], orelse=[]), w)
+            return w
+    for m in modules.values():
+        m.tree = ast.fix_missing_locations(T().visit(m.tree))
+    return [('<package>', [], '%d `while True: if c: break` loops written with their guard' % n)] if n else []
+
+
+# ----------------------------------------------------------------------------------------------- for _ in iter(f, sentinel)
+
+def canonical_iter_sentinel(modules):
+    """`for _ in iter(f, S): BODY` (target not used, no else) calls f() before every pass and stops when the answer equals S: `while f() != S: BODY`."""
+    n = 0
+
+    class T(ast.NodeTransformer):
+        def visit_For(self, st):
+            nonlocal n
+            self.generic_visit(st)
+            it = st.iter
+            if isinstance(it, ast.Call) and isinstance(it.func, ast.Name) and it.func.id == 'iter' and len(it.args) == 2 and not it.keywords and isinstance(it.args[1], ast.Constant) \
+                    and isinstance(st.target, ast.Name) and not st.orelse \
+                    and not any(isinstance(x, ast.Name) and x.id == st.target.id for b in st.body for x in ast.walk(b)):
+                n += 1
+                test = ast.Compare(left=ast.Call(func=it.args[0], args=[], keywords=[]), ops=[ast.NotEq()], comparators=[it.args[1]])
+                return ast.copy_location(ast.While(test=test, body=st.body, orelse=[]), st)
+            return st
+    for m in modules.values():
+        m.tree = ast.fix_missing_locations(T().visit(m.tree))
+    return [('<package>', [], '%d `for _ in iter(f, sentinel)` loops written as while loops' % n)] if n else []
+
+
+def simplify_bool_comparisons(modules):
+    """`B != False`, `B is not False`, `B == True`, `B is True` -> B and `B == False`, `B is False`, `B != True` -> not B, where B is itself a comparison, a boolean
+    operation or a negation (its value is a bool, so the outer comparison adds nothing)"""
+    n = 0
+
+    def boolean(e):
+        return isinstance(e, (ast.Compare, ast.BoolOp)) and not (isinstance(e, ast.BoolOp)) or (isinstance(e, ast.UnaryOp) and isinstance(e.op, ast.Not)) or \
+            (isinstance(e, ast.BoolOp) and all(boolean(v) for v in e.values))
+
+    class T(ast.NodeTransformer):
+        def visit_Compare(self, c):
+            nonlocal n
+            self.generic_visit(c)
+            if len(c.ops) == 1 and isinstance(c.comparators[0], ast.Constant) and isinstance(c.comparators[0].value, bool) and boolean(c.left) \
+                    and isinstance(c.ops[0], (ast.Eq, ast.NotEq, ast.Is, ast.IsNot)):
+                same = isinstance(c.ops[0], (ast.Eq, ast.Is)) == c.comparators[0].value
+                n += 1
+                return c.left if same else ast.copy_location(ast.UnaryOp(op=ast.Not(), operand=c.left), c)
+            return c
+    for m in modules.values():
+        m.tree = ast.fix_missing_locations(T().visit(m.tree))
+    return n
 
 
 # ----------------------------------------------------------------------------------------------- local aliases of attribute chains
